@@ -243,7 +243,7 @@ func (s *pstate) call(fn string, depth, argDepth int) *prog.Call {
 var (
 	identPool = []string{"a", "b", "id", "name", "T1", "T2", "R1", "default", "tiny", "not_found", "basic", "jwt", "svc", "m1", "key"}
 	miscPool  = []string{"", "no_such", "application/vnd.r1", "application/vnd.r1+json; view=tiny", "application/json", "id:X-Id", "a:b:c",
-		"struct:field:name", "struct:error:name", "rpc:tag", "openapi:generate", "type:generate:force", "view", "date", "^a+$", "(", "*", "1",
+		"struct:field:name", "struct:pkg:path", "struct:error:name", "rpc:tag", "openapi:generate", "type:generate:force", "view", "date", "^a+$", "(", "*", "1",
 		"\x00", "Ünï cødé", strings.Repeat("x", 300), "a b", "A", "Authorization", "{id}", "/", "#ref", "goa.design/goa/v3", "string", "int",
 		"T1", "application/vnd.goa.error", "header:X", "api_key", "read", "a description"}
 	pathPool = []string{"/", "/x", "/x/{id}", "/{*p}", "/x/{id}/{id}", "{a}", "//", "/{", "/x/{no_such}", "", "/x/{id:X}", "x", "/{*a}/{*b}", "/x?y=1", "/{a}/{b}"}
@@ -320,6 +320,9 @@ func (s *pstate) dataType(fn string, depth, argDepth int) *prog.Arg {
 }
 
 func (s *pstate) scalar() *prog.Arg {
+	if s.r.Chance(1, 12) {
+		return &prog.Arg{K: prog.Bytes, S: s.r.Pick("a", "b", "")}
+	}
 	switch s.r.Intn(5) {
 	case 0:
 		return &prog.Arg{K: prog.Int, I: intPool[s.r.Intn(len(intPool))]}
